@@ -44,7 +44,12 @@ func main() {
 	vFile := flag.String("variant-file", "", "internal: child process of the sensitivity sweep")
 	vSrc := flag.String("variant-src", "", "internal")
 	vBase := flag.String("variant-baseline", "", "internal")
+	allProps := flag.String("all-props", "", "development aid (corpus sweeps): run the quick tier of every property in this one process, loading the tree once; evidence goes to this directory, one line 'PROP <id> exit=<code>' per property")
 	flag.Parse()
+	if *allProps != "" {
+		runAllProps(*repo, *allProps, *knownPath)
+		return
+	}
 	if *vFile != "" {
 		variantChild(*repo, *prop, *vFile, *vSrc, *vBase)
 		return
@@ -150,4 +155,44 @@ func main() {
 	}
 	code := r.finish(w, kf, *tier, seed, *evid, start, expl, spec.Assumptions, controls)
 	os.Exit(code)
+}
+
+// runAllProps is a development aid for the sweeps over the corpora of refactorings and mutants: the verdict of every
+// property on one tree, computed by one process (the tree is loaded and built once). It is no manifest command; the
+// registered checks run one property per process.
+func runAllProps(repo, dir, knownPath string) {
+	if knownPath == "" {
+		self, _ := os.Executable()
+		knownPath = filepath.Join(filepath.Dir(filepath.Dir(self)), "known_findings.json")
+	}
+	_ = os.MkdirAll(dir, 0o755)
+	w := newWorld(repo, false)
+	controls := runControls()
+	kf := loadKnown(knownPath)
+	var ids []string
+	for id := range registry {
+		ids = append(ids, id)
+	}
+	sort.Strings(ids)
+	only := os.Getenv("VERIF_ONLY")
+	for _, id := range ids {
+		if only != "" && !strings.Contains(only, id) {
+			continue
+		}
+		spec := registry[id]
+		start := time.Now()
+		r := newReport(spec.ID)
+		ran := map[uintptr]bool{}
+		for _, rule := range spec.Rules {
+			if p := reflect.ValueOf(rule).Pointer(); ran[p] {
+				continue
+			} else {
+				ran[p] = true
+			}
+			resetFlatRoots()
+			rule(w, r)
+		}
+		code := r.finish(w, kf, "quick", 0, filepath.Join(dir, "ev_"+id+".json"), start, "static analysis (sweep mode)", spec.Assumptions, controls)
+		fmt.Printf("PROP %s exit=%d\n", id, code)
+	}
 }
